@@ -4,7 +4,9 @@ For every method of xmlschema/validators/*.py that lies on the validation path, 
 deletes, calls of mutating container methods, setattr, stores through the class or `type(self)`, global / nonlocal declarations) is
 computed from the real AST and must be included in the frame the contract states.  The frame on the unchanged tree is tiny: the
 recorded xsi:type uses of an element, the per-validation identity counters, and the reset of the schema's scratch context.  Anything
-else - a cache on the component, a counter, a memo - is residue that can influence later calls and fails the obligation.
+else - a cache on the component, a counter, a memo - is residue that can influence later calls and fails the obligation.  A second clause
+follows local names that hold components (xsd_*, schema): a store or a mutator call through such a name is allowed only on an object
+that was created (copied / built) in the same statement list - the copy-before-_set_type discipline of collect_key_fields.
 Decided syntactically on the real source (back end `ast`).
 """
 import ast, glob, os
@@ -50,6 +52,69 @@ def writes(fn):
     return w
 
 
+FRESH_CALLS = ('_copy', 'copy', 'deepcopy')
+COMPONENT_MUT = ('_set_', '_parse', 'parse', 'build', 'clear', 'set_')
+ALIAS_FRAME = {
+    # dynamic schema loading from xsi:schemaLocation hints: the documented, intended extension of the maps (under protect_status)
+    ('elements.py', 'XsdElement.check_dynamic_context'): {'call schema.clear', 'call schema.build'},
+    ('elements.py', 'Xsd11Element.check_dynamic_context'): {'call schema.clear', 'call schema.build'},
+}
+
+
+def is_fresh(e):
+    """the expression evaluates to an object created by this evaluation (a copy or a newly built component)"""
+    if isinstance(e, ast.Call):
+        f = e.func
+        if isinstance(f, ast.Name) and (f.id in FRESH_CALLS or f.id[:1].isupper()): return f.id != 'cast' or is_fresh(e.args[1])
+        if isinstance(f, ast.Name) and f.id == 'cast': return len(e.args) == 2 and is_fresh(e.args[1])
+        if isinstance(f, ast.Attribute) and (f.attr.startswith('create_') or f.attr.endswith('_class') or f.attr == 'copy'): return True
+    return False
+
+
+def alias_writes(fn):
+    """writes on schema components reached through a local name (xsd_*, schema): stores of attributes / items and calls of component
+    mutators.  A write is allowed when the nearest preceding assignment of the name in the same statement list binds a fresh object."""
+    bad = set()
+
+    def root(e):
+        while isinstance(e, (ast.Attribute, ast.Subscript)): e = e.value
+        return e.id if isinstance(e, ast.Name) else None
+
+    def watched(name): return name is not None and (name.startswith('xsd_') or name == 'schema')
+
+    def scan(stmts, fresh):
+        fresh = set(fresh)
+        for s in stmts:
+            # writes in this statement (not descending into nested statement lists, which are scanned with the current fresh set)
+            heads = [s] if not hasattr(s, 'body') else [getattr(s, 'test', None), getattr(s, 'iter', None)] + [i.context_expr for i in getattr(s, 'items', [])]
+            for h in [h for h in heads if h is not None]:
+                for n in ast.walk(h):
+                    if isinstance(n, (ast.Attribute, ast.Subscript)) and isinstance(getattr(n, 'ctx', None), (ast.Store, ast.Del)):
+                        r = root(n)
+                        if watched(r) and r not in fresh: bad.add('store ' + ast.unparse(n))
+                    if isinstance(n, ast.Call) and isinstance(n.func, ast.Attribute):
+                        r = root(n.func.value)
+                        if watched(r) and r not in fresh and (n.func.attr.startswith(COMPONENT_MUT) or n.func.attr in MUT): bad.add('call ' + ast.unparse(n.func))
+                    if isinstance(n, ast.Call) and isinstance(n.func, ast.Name) and n.func.id in ('setattr', 'delattr') and n.args and watched(root(n.args[0])) and root(n.args[0]) not in fresh:
+                        bad.add('call ' + n.func.id + '(' + ast.unparse(n.args[0]) + ', ...)')
+            if isinstance(s, (ast.Assign, ast.AnnAssign)) and s.value is not None:
+                for tg in (s.targets if isinstance(s, ast.Assign) else [s.target]):
+                    if isinstance(tg, ast.Name):
+                        (fresh.add if is_fresh(s.value) else fresh.discard)(tg.id)
+                    else:
+                        for x in ast.walk(tg):
+                            if isinstance(x, ast.Name) and isinstance(x.ctx, ast.Store): fresh.discard(x.id)
+            for sub in ('body', 'orelse', 'finalbody'):
+                if hasattr(s, sub) and isinstance(getattr(s, sub), list): scan(getattr(s, sub), fresh)
+            for h in getattr(s, 'handlers', []): scan(h.body, fresh)
+            if hasattr(s, 'body') and not isinstance(s, (ast.FunctionDef, ast.ClassDef)):
+                # names (re)bound inside a nested block are no longer known to be fresh after it
+                for n in ast.walk(s):
+                    if isinstance(n, ast.Name) and isinstance(n.ctx, ast.Store): fresh.discard(n.id)
+    scan(fn.body, set())
+    return bad
+
+
 def methods():
     for f in sorted(glob.glob(os.path.join(REPO, 'xmlschema/validators/*.py'))) + [os.path.join(REPO, 'xmlschema/converters/base.py')]:
         tree = ast.parse(open(f, encoding='utf-8-sig').read())
@@ -65,7 +130,7 @@ t = Target('frame.validation_methods_write_only_their_frame', ['C10'], 'xmlschem
            note='every validation-path method of validators/*.py writes, on the schema component it belongs to, at most what its stated frame allows '
                 '(xsi:type uses, per-validation identity counters, the reset of the scratch context); no other attribute / item / class-level store, '
                 'setattr, global or mutating call on self',
-           assumes=['syntactic obligation on the real AST (no solver)', 'writes through aliases (x = self; x.y = ...) and through callees outside the listed method names are not seen'])
+           assumes=['syntactic obligation on the real AST (no solver)', 'writes through local names are seen for names that follow the code base convention for components (xsd_*, schema): such a write needs a fresh object (copy / newly created component) bound in the same statement list; other aliases and writes through callees outside the listed method names are not seen'])
 
 
 @t.symbolic
@@ -76,5 +141,7 @@ def _(run):
         n += 1
         extra = writes(fn) - FRAME.get((fname, qual), set())
         run.vc('writes-within-frame', pre, [], z3.BoolVal(not extra), f'{fname}:{qual}' + (' extra=' + ';'.join(sorted(extra)) if extra else ''))
+        extra = alias_writes(fn) - ALIAS_FRAME.get((fname, qual), set())
+        run.vc('component-writes-only-on-fresh-objects', pre, [], z3.BoolVal(not extra), f'{fname}:{qual}' + (' extra=' + ';'.join(sorted(extra)) if extra else ''))
     run.paths = n
     if n < 40: raise Exception(f'only {n} validation-path methods found: the scan is broken')
